@@ -4,6 +4,9 @@
 From RE Require Import Base Resp State Exec Exec2 Bits Dispatch RespParse Dict.
 From RE Require Wait.
 From RE Require Import Persist PersistDir.
+From RE Require Cxn.
+Definition c0 := Cxn.c0.
+Definition cstep := Cxn.cstep.
 Require Import ExtrOcamlBasic.
 Definition dict_unit := dict unit.
 Definition dict_empty : dict unit := empty_dict.
@@ -14,4 +17,4 @@ Definition dict_scan (d : dict unit) (cursor : N) (count : nat) : N * list (item
 Definition w_cfg0 : Wait.cfg := Wait.cfg0.
 Definition w_step : Wait.cfg -> Wait.label -> option Wait.cfg := Wait.wstep.
 Extraction "model.ml" w_cfg0 w_step step wire close_conn state0 ser to2 o_st o_reply o_block get_db get_conn
-  parse conn_run enc_cmd dict_empty dict_store dict_remove dict_scan d_log d_slots d_count d_removals it_key it_hash load_plan file_index.
+  parse conn_run enc_cmd dict_empty dict_store dict_remove dict_scan d_log d_slots d_count d_removals it_key it_hash load_plan file_index c0 cstep.
